@@ -58,7 +58,7 @@ def deco_key(d):
     """canonical hash-seed independent name of a family member"""
     return '{}D:{}{}:n{}:pos={}:sp={}:spin={}:nosym={}'.format(
         d['dim'], d['latt'], ('+' + d['strain']) if d.get('strain') else '', 1 + len(d['pos']),
-        ''.join(geom.pos_name(p) for p in d['pos']), d['species'], d['spin'], int(bool(d.get('nosym'))))
+        'explicit' if 'texture' in d else ''.join(geom.pos_name(p) for p in d['pos']), d['species'], d['spin'], int(bool(d.get('nosym'))))
 
 
 def deco_class(d):
@@ -75,8 +75,39 @@ def coarse_key(d):
                                           1 + len(d['pos']), int(bool(d.get('nosym'))))
 
 
+# ---- non-collinear spin textures: with <= 2 atoms an operation and its inverse accept the same spin patterns, so the
+# way vector spins are carried (cartrot . s) is only decided by textures in which an operation permutes >= 3 atoms
+# cyclically.  Positions are explicit; the spins are every permutation of a set of in-plane unit vectors.
+TEXTURES = {
+    'kagome3': {'latts': ('hp', 'hP'), 'pos': [(0.5, 0.), (0., 0.5), (0.5, 0.5)], 'angles': [(0, 120, 240), (90, 210, 330), (30, 150, 270)]},
+    'square4': {'latts': ('tp', 'tP', 'cP'), 'pos': [(0.25, 0.), (0., 0.25), (0.75, 0.), (0., 0.75)],
+                'angles': [(0, 90, 180, 270), (45, 135, 225, 315)]},
+}
+
+
+def texture_decorations():
+    for name, t in sorted(TEXTURES.items()):
+        for latt in t['latts']:
+            for angles in t['angles']:
+                for perm in itertools.permutations(range(len(angles))):
+                    for tilt in (0, 1):     # tilt = 1: common out-of-plane component (3D only)
+                        dim = 2 if latt in geom.BRAVAIS2 else 3
+                        if tilt and dim == 2: continue
+                        yield {'dim': dim, 'latt': latt, 'strain': None, 'pos': [None] * (len(angles) - 1), 'species': 'tex:' + name,
+                               'spin': 'angles=' + ','.join(str(angles[i]) for i in perm) + (';tilt' if tilt else ''),
+                               'texture': name, 'spinangles': [angles[i] for i in perm], 'tilt': tilt, 'nosym': False}
+
+
+def build_texture(d):
+    dim, t = d['dim'], TEXTURES[d['texture']]
+    basis = [[np.array(list(p) + [0.] * (dim - 2)) for p in t['pos']]]
+    spins = [[np.array([np.cos(np.radians(a)), np.sin(np.radians(a))] + ([0.5 * d['tilt']] if dim == 3 else [])) for a in d['spinangles']]]
+    return crystal.Crystal(geom.bravais(d['latt'], None), basis, spins=spins)
+
+
 def build_decoration(d):
     """the REAL crystal of a family member"""
+    if 'texture' in d: return build_texture(d)
     dim = d['dim']
     L = geom.bravais(d['latt'], d.get('strain'))
     n = 1 + len(d['pos'])
@@ -165,6 +196,8 @@ def BOUNDS(tier):
         'species': geom.SPECIES_PATTERNS,
         'spin_patterns': {k: [x for x in v if not (quick and x in QUICK_DROPPED_SPINS)] for k, v in geom.SPIN_PATTERNS.items()},
         'NOSYM': 'False with every pattern; True with spin patterns ' + str(list(NOSYM_SPINS)),
+        'spin_textures': {k: {'lattices': list(v['latts']), 'atoms': len(v['pos']), 'spin sets (degrees, every permutation)': [list(a) for a in v['angles']],
+                              'tilt': 'common out-of-plane component 0 and 0.5 (3D)'} for k, v in TEXTURES.items()},
         'real GroupOp.__mul__': 'all |G|^2 ordered pairs when |G| <= 48; for larger groups every g with the 8 '
                                 'geometrically-first h (both orders); data-level closure always on all pairs',
     }
@@ -174,6 +207,7 @@ def cases(tier):
     out = []
     for dim in (2, 3):
         out.append({'key': 'n1:{}D'.format(dim), 'dim': dim, 'n': 1, 'cost': 1})
+    out.append({'key': 'textures', 'textures': True, 'n': 0, 'cost': 400})
     for dim in (2, 3):
         count = {}
         for blk in family_blocks(tier, dim):
@@ -357,6 +391,8 @@ def check_group(crys, nosym=False, completeness=True):
 def evaluate(case):
     if 'single' in case:
         decos = [case['single']]
+    elif case.get('textures'):
+        decos = list(texture_decorations())
     elif case['n'] == 1:
         decos = list(n1_decorations(case['dim']))
     else:
